@@ -64,10 +64,10 @@ func runCheck(repo, verif, prop, tier string, t0 time.Time) (int, error) {
 	if s := os.Getenv("VERIF_SEED"); s != "" {
 		seed, _ = strconv.Atoi(s)
 	}
-	timeout, coverTimeout := 10, 1
+	timeout, coverTimeout := 30, 1
 	allSolvers := false
 	if tier == "thorough" {
-		timeout, coverTimeout = 60, 5
+		timeout, coverTimeout = 120, 5
 		allSolvers = true
 	}
 	prog, err := loadAll(repo, verif)
@@ -127,7 +127,9 @@ func runCheck(repo, verif, prop, tier string, t0 time.Time) (int, error) {
 	if fl, ok := floors[prop]; ok && len(obls) < fl && len(unsupported) == 0 {
 		return 2, fmt.Errorf("vacuity: %d obligations generated for %s, committed floor is %d", len(obls), prop, fl)
 	}
-	prog.solveAll(dir, obls, timeout, allSolvers, 16)
+	tGen := time.Since(t0)
+	prog.solveAll(dir, obls, timeout, allSolvers, 12)
+	tSolve := time.Since(t0) - tGen
 	// lemmas over the spec functions (SMT-LIB files asserting the negated claim): must be unsat
 	lemmaReports := []map[string]interface{}{}
 	for _, lf := range pe.Lemmas {
@@ -149,6 +151,7 @@ func runCheck(repo, verif, prop, tier string, t0 time.Time) (int, error) {
 	}
 	// vacuity: reachability covers (must NOT be unsat)
 	prog.solveAll(filepath.Join(dir), covers, coverTimeout, false, 16)
+	fmt.Fprintf(os.Stderr, "phases: load+generate %.1fs, solve %d obligations %.1fs, %d covers %.1fs\n", tGen.Seconds(), len(obls), tSolve.Seconds(), len(covers), (time.Since(t0) - tGen - tSolve).Seconds())
 	var vacuous []string
 	for fn, cs := range coverByFunc {
 		groups := map[string][2]int{} // kind -> [total, unsat]
